@@ -86,7 +86,11 @@ class BaseModbusDataBlock(object):
 
     def reset(self):
         ''' Resets the datastore to the initialized default value '''
-        self.values = [self.default_value] * len(self.values)
+        if isinstance(self.values, dict):
+            # a sparse block keeps its populated addresses
+            self.values = dict.fromkeys(self.values, self.default_value)
+        else:
+            self.values = [self.default_value] * len(self.values)
 
     def validate(self, address, count=1):
         ''' Checks to see if the request is in range
